@@ -14,6 +14,7 @@ from vf.core import hyp_run, reset_tatsu_state, watchdog, CaseTimeout
 from vf.gast import children, grammar_text, replace_children, shrink_rules, tup, walk
 
 PROPERTY = 'C07'
+HISTORY_CONFIRM = True   # a failure that needs the process history is confirmed by re-running its shard from the seed
 RULE = ('C01-style generated grammars whose rules carry type annotations (single `r[T]`, chains `T::B1::B2` with bases shared between '
         'rules, builtin names int/str/float/list on suitable rules, rules with and without names, element names that collide with dict '
         'attributes: items, keys, get), annotated rules reached inside closures, optionals, overrides and named lists; type names are unique '
@@ -254,6 +255,13 @@ def check(rules, ruleinfo, text, cache=None):
             except (ParseException, RecursionError):
                 info['plain'] = 'fail'   # rejection (or a recursion too deep for the limit): nothing to mirror; C08 owns error reporting
                 return None, info
+            except Exception as e:
+                # the grammar model is itself a node tree that TatSu navigates with children(): an internal error here is a broken tree
+                import traceback
+                fr = [f for f in traceback.extract_tb(e.__traceback__) if '/tatsu/' in f.filename]
+                where = f'{fr[-1].filename.split("/tatsu/")[-1]}:{fr[-1].name}' if fr else '?'
+                return dict(bucket=f'plain-parse:{type(e).__name__}@{where}', oracle='parsing a generated sentence with a valid grammar returns or raises a parse error',
+                            observed=f'{type(e).__name__}: {str(e)[:200]}'), info
             info['plain'] = 'ok'
             try:
                 synth = model.parse(text, start=start, asmodel=True)
